@@ -1,6 +1,6 @@
 (* PV.C17.ProofsFinal — the statements of Properties.v, proved from the lemma files. *)
 From Coq Require Import List Bool PArith Arith Permutation.
-From PV Require Import Base.PyData C17.Model C17.ProofsSched C17.ProofsDask C17.ProofsGraph C17.ProofsBuilder C17.Proofs C17.ProofsPrepare C17.ProofsDeclared.
+From PV Require Import Base.PyData C17.Model C17.ProofsSched C17.ProofsDask C17.ProofsGraph C17.ProofsBuilder C17.Proofs C17.ProofsPrepare C17.ProofsDeclared C17.ProofsOptimize C17.ProofsQueries.
 Import ListNotations.
 
 Lemma topo_eval_is_sequential_evaluation_stmt :
@@ -204,4 +204,58 @@ Lemma execute_is_declared_evaluation_stmt :
 Proof.
   intros apply g ctx next ids o order rc B U Ho Hf Hr Hcov.
   exact (execute_declared_lemma apply g ctx next B U ids o order rc Ho Hf Hr Hcov).
+Qed.
+
+(* ---- optimize.py, queries, +, call_workflow ---------------------------------------------------------- *)
+Lemma scatter_preserves_stmt :
+  forall (apply : positive -> list sval -> sval) (d : dsk) (k : positive),
+    dsk_no_fut d = true -> dask_get_dist_log apply (scatter_dsk d) k = dask_get_log apply d k.
+Proof. exact scatter_preserves_lemma. Qed.
+
+Lemma scatter_unpacks_to_original_stmt : forall a, no_fut a = true -> unfut (scatter a) = a.
+Proof. exact unfut_scatter. Qed.
+
+Lemma as_dask_dict_has_no_futures_stmt :
+  forall (g : tgraph) (ids : task -> positive) (d : dsk),
+    as_dask_dict g ids = Some d ->
+    (forall t a, In t (nodes g) -> In a (tinputs t) -> no_fut a = true) -> dsk_no_fut d = true.
+Proof. exact as_dask_dict_no_fut. Qed.
+
+Lemma output_tasks_exact_stmt :
+  forall (g : tgraph),
+    output_tasks g = filter (fun t => match succ g t with [] => true | _ => false end) (nodes g) /\
+    forall t, In t (output_tasks g) <-> In t (nodes g) /\ succ g t = [].
+Proof. exact output_tasks_exact_lemma. Qed.
+
+Lemma input_tasks_exact_stmt :
+  forall (g : tgraph),
+    input_tasks g = filter (fun t => match pred g t with [] => true | _ => false end) (nodes g) /\
+    forall t, In t (input_tasks g) <-> In t (nodes g) /\ pred g t = [].
+Proof. exact input_tasks_exact_lemma. Qed.
+
+Lemma plus_exact_stmt :
+  forall (g h : tgraph), built g -> built h ->
+    nodes (builder_plus g h) = nodes g ++ filter (fun x => negb (tmem x (nodes g))) (nodes h) /\
+    (forall u v, In v (succ (builder_plus g h) u) <-> In v (succ g u) \/ In v (succ h u)).
+Proof. intros g h Bg Bh. apply (builder_plus_exact_lemma g h (built_wf g Bg) (built_wf h Bh)). Qed.
+
+Lemma get_upstream_tasks_sound_partial_stmt :
+  forall (g : tgraph) (t x : task), In x (upstream task task_eqb g t) -> reach g x t.
+Proof. exact upstream_sound_lemma. Qed.
+
+Lemma call_workflow_context_exact_stmt :
+  forall (g : tgraph) (ctx : sval) (next : positive), built g -> uids_below next g = true ->
+    nodes (call_prepare g ctx next) = map (call_image g ctx next) (nodes g) /\
+    (forall t, In t (nodes g) ->
+       tid (call_image g ctx next t) = tid t /\ tfun (call_image g ctx next t) = tfun t /\
+       tctx (call_image g ctx next t) = tctx t /\
+       tinputs (call_image g ctx next t) = if tctx t then ctx :: tinputs t else tinputs t) /\
+    (forall u v, In u (nodes g) -> In v (nodes g) ->
+       (In (call_image g ctx next v) (succ (call_prepare g ctx next) (call_image g ctx next u)) <-> In v (succ g u))) /\
+    (forall t, In t (nodes g) ->
+       pred (call_prepare g ctx next) (call_image g ctx next t) = map (call_image g ctx next) (pred (workflow_of g) t)).
+Proof.
+  intros g ctx next B U. pose proof (built_wf g B) as W.
+  destruct (call_prepare_spec g ctx next W U) as [N [S P]].
+  split; [exact N|]. split; [intros t Ht; apply call_image_fields; exact Ht|]. split; [exact S | exact P].
 Qed.
